@@ -99,8 +99,9 @@ def mc_plan(tier):
             if backend == "file" and layout == "plain":
                 continue
             plan.append(("clone_%s_%s" % (layout, backend),
-                         dict(base, Kind="none", Backend=backend, ByteSizes=[0, 16, 100], TypeSet=[], AlignedSet=[], MinSegSet=[],
-                              IncSet=[], TruncSet=[64, 300], WithClone=True, MaxLen=4 + deep, Emit=True), "emit_clone", layout))
+                         dict(base, Kind="none", Backend=backend, ByteSizes=[0, 16, 100], TypeSet=[], AlignedSet=[],
+                              # (what the other value reports about the header fields changed in between: C16)
+                              MinSegSet=[24], IncSet=[5], TruncSet=[64, 300], WithClone=True, MaxLen=4 + deep, Emit=True), "emit_clone", layout))
     return plan
 
 
